@@ -254,8 +254,39 @@ def swizzle_items(full):
 
 # -- (5) an element selection with a constant index placed INSIDE another expression ---------------------------
 
+HUGE = [2147483647, 2147483648, 4294967295, 4294967296, 4294967297, 4294967298, 8589934593, -2147483648, -4294967295,
+        -4294967296, -4294967297]
+
+
+def huge_items():
+    out = []
+    for c in HUGE:
+        for style in (("dec", "hex") if c >= 0 else ("dec",)):
+            for target in ("array", "array2d-first", "array2d-last", "vector", "matrix-row", "matrix-column"):
+                for rw in ("read", "write"):
+                    out.append((c, style, target, rw))
+    return out
+
+
+def huge_case(ctx, case):
+    """a constant index far outside every size (around 2^31, 2^32, 2^33 and their negatives) is out of range,
+    whatever it would wrap to in 32 bits"""
+    c, style, target, rw = case
+    cs = spell(c, style)
+    decl, acc, ety = {"array": ("int [ 4 ] t", "t [ %s ]", "int"), "array2d-first": ("int [ 2 ] [ 3 ] t", "t [ %s ] [ 1 ]", "int"),
+                      "array2d-last": ("int [ 2 ] [ 3 ] t", "t [ 1 ] [ %s ]", "int"), "vector": ("float4 t", "t [ %s ]", "float"),
+                      "matrix-row": ("float3x3 t", "t [ %s ] [ 0 ]", "float"), "matrix-column": ("float3x3 t", "t [ 1 ] [ %s ]", "float")}[target]
+    access = acc % cs
+    stmts = ["%s = %s ;" % (access, "1.0" if ety == "float" else "1")] if rw == "write" else ["%s r = %s ;" % (ety, access)]
+    ctx.label("huge-constant:" + target)
+    judge(ctx, wrap("local", decl, stmts), False, "huge|%s|%s" % (target, "below" if c < 0 else "above"),
+          "constant index %d of %s" % (c, decl), case, True)
+
+
 ENTITIES = [("array", "int [ %d ] t", "t [ %s ]", (1, 2, 3, 5)), ("array2d-last", "int [ 2 ] [ %d ] t", "t [ 1 ] [ %s ]", (2, 3)),
-            ("int-vector", "int%d t", "t [ %s ]", (2, 3, 4)), ("array-of-vectors", "int2 [ %d ] t", "t [ %s ] . x", (2, 3))]
+            ("int-vector", "int%d t", "t [ %s ]", (2, 3, 4)), ("array-of-vectors", "int2 [ %d ] t", "t [ %s ] . x", (2, 3)),
+            # a single-component swizzle, spelled by position: x y z w (an out-of-range selector when position >= size)
+            ("int-vector-swizzle", "int%d t", "t . %s", (2, 3))]
 EMBEDDINGS = [
     ("index-of-array", "int r = o [ %s ] ;"), ("index-arithmetic", "int r = o [ p + %s ] ;"),
     ("index-of-vector", "float r = q [ %s ] ;"), ("index-of-matrix-row", "float r = m [ %s ] [ 0 ] ;"),
@@ -263,6 +294,8 @@ EMBEDDINGS = [
     ("call-argument-in-index", "int r = o [ gi ( %s ) ] ;"), ("index-of-written-element", "o [ %s ] = 1 ;"),
     ("call-argument", "int r = gi ( %s ) ;"), ("operand", "int r = 1 + %s * 2 ;"), ("condition", "if ( %s > 0 ) { p = 1 ; }"),
     ("loop-condition", "while ( %s > p ) { p = p + 1 ; }"), ("return-value", None), ("swizzle-write-value", "q . x = %s ;"),
+    ("index-of-struct-array-then-field", "int r = sa [ %s ] . a ;"), ("index-of-struct-array-then-field-write", "sa [ %s ] . a = 1 ;"),
+    ("index-of-struct-array-then-vector-field", "float r = sa [ %s ] . v . x ;"),
 ]
 
 
@@ -270,7 +303,7 @@ def nested_items():
     out = []
     for ent, decl, acc, sizes in ENTITIES:
         for n in sizes:
-            for c in range(-2, n + 2):
+            for c in (range(0, 4) if ent == "int-vector-swizzle" else range(-2, n + 2)):
                 for emb, _ in EMBEDDINGS:
                     out.append((ent, n, c, emb))
     return out
@@ -279,9 +312,9 @@ def nested_items():
 def nested_case(ctx, case):
     ent, n, c, emb = case
     _, decl, acc, _ = [e for e in ENTITIES if e[0] == ent][0]
-    access = acc % str(c)
+    access = acc % ("xyzw"[c] if ent == "int-vector-swizzle" else str(c))
     tmpl = dict(EMBEDDINGS)[emb]
-    pre = "function gi ( int z ) -> int { return z ; }\n"
+    pre = "struct P { int a ; float2 v ; }\nP [ 9 ] sa ;\nfunction gi ( int z ) -> int { return z ; }\n"
     body = [(decl % n) + " ;", "int [ 9 ] o ;", "float4 q ;", "float3x3 m ;"]
     if tmpl is None:
         src = pre + "export function f ( int p ) -> int {\n %s\n return %s ;\n}\n" % ("\n ".join(body), access)
@@ -302,6 +335,8 @@ def run(R):
     R.enum("vectors-matrices", lambda: vecmat_items(full), vecmat_case, exhaustive=True)
     R.enum("index-types", lambda: [(e, t, rw) for e in INDEX_EXPRS for t in TARGETS for rw in ("read", "write")],
            indextype_case, exhaustive=True)
+    R.enum("huge-constants", huge_items, huge_case, exhaustive=True)
+    R.require("huge-constant:vector")
     R.enum("nested-selections", nested_items, nested_case, exhaustive=True)
     R.require("nested:index-in-index")
     R.enum("swizzles", lambda: swizzle_items(full), swizzle_case, exhaustive=full, chunks=64)
